@@ -121,7 +121,17 @@ func loadChecks() (*checksFile, error) {
 	// fragments: harness/checks.d/*.json (same format; units of a property are appended)
 	frags, _ := filepath.Glob(filepath.Join(verifRoot, "harness", "checks.d", "*.json"))
 	sort.Strings(frags)
+	// fragments listed in checks.d/SKIP (work in progress) are ignored
+	skip := map[string]bool{}
+	if data, err := os.ReadFile(filepath.Join(verifRoot, "harness", "checks.d", "SKIP")); err == nil && os.Getenv("VERIF_INCLUDE_WIP") == "" {
+		for _, l := range strings.Fields(string(data)) {
+			skip[l] = true
+		}
+	}
 	for _, f := range frags {
+		if skip[filepath.Base(f)] {
+			continue
+		}
 		data, err := os.ReadFile(f)
 		if err != nil {
 			return nil, err
